@@ -15,7 +15,9 @@
 (* (lo, hi) that Next halves; the record at lo = hi is judged by the       *)
 (* invariant, which prints a verdict line for every record that is not     *)
 (* plainly accepted:                                                       *)
-(*   "reject"     step k has an observation (field f) that is not allowed  *)
+(*   "reject"     the steps k (fields f) have observations that are not    *)
+(*                allowed (after a rejected read-back call the judge goes  *)
+(*                on from the state the call reported)                     *)
 (*   "unspec"     step k is one the specification leaves open; the steps   *)
 (*                before it were accepted, those after it are not judged   *)
 (*   "bad-input"  the record is not a well-formed case (tool error)        *)
@@ -33,10 +35,11 @@ vars == <<lo, hi>>
 
 V(v, k, f) == [v |-> v, k |-> k, f |-> f]
 
-IsCall(cmd) == cmd[1] \in {"getrlimit", "setrlimit", "sys_umask"}
+IsCall(cmd) == cmd[1] \in {"getrlimit", "setrlimit", "sys_umask", "sys_getumask"}
 GoodCmd(cmd) ==
   /\ Len(cmd) >= 1
-  /\ cmd[1] \in {"ulimit", "umask", "times", "set", "getrlimit", "setrlimit", "sys_umask"}
+  /\ cmd[1] \in {"ulimit", "umask", "times", "set", "getrlimit", "setrlimit", "sys_umask", "sys_getumask"}
+  /\ (cmd[1] = "sys_getumask" => Len(cmd) = 1)
   /\ (cmd[1] = "getrlimit" => Len(cmd) = 2 /\ cmd[2] \in Resources)
   /\ (cmd[1] = "setrlimit" => Len(cmd) = 4 /\ cmd[2] \in Resources /\ IsLimit(cmd[3]) /\ IsLimit(cmd[4])
                                /\ \A i \in {3, 4} : cmd[i] = Inf \/ DCmp(DigitsOf(cmd[i]), DigitsOf(P.inf)) < 0)
@@ -49,19 +52,40 @@ Why(SS, cmd, o) ==
   ELSE IF \A x \in os : (x.st = 0) = (o.st = 0) => (x.st = 0) = o.err THEN "stderr"
   ELSE "stdout"
 
-RECURSIVE JudgeFrom(_, _, _)
-JudgeFrom(r, SS, k) ==
-  IF k > Len(r.steps) THEN V("ok", 0, "")
+\* After a rejected read-back call the judge goes on from the state the call
+\* reported (so that one deviation does not hide the rest of the sequence).
+Resync(SS, cmd, text) ==
+  IF cmd[1] = "sys_getumask" /\ Len(text) = 3 /\ RangeOf(Chars(text)) \subseteq OctalSet
+  THEN {[T EXCEPT !.umask = OctalVal(Chars(text))] : T \in SS}
+  ELSE IF cmd[1] = "getrlimit" THEN
+    LET ps == Split(Chars(text), " ") IN
+    IF Len(ps) = 2 /\ IsLimit(Concat(ps[1])) /\ IsLimit(Concat(ps[2])) /\ LimLE(Concat(ps[1]), Concat(ps[2]))
+    THEN {[T EXCEPT !.rlim[cmd[2]] = <<Concat(ps[1]), Concat(ps[2])>>] : T \in SS}
+    ELSE {}
+  ELSE {}
+
+\* acc: the rejected steps so far, <<k, field>> each
+RECURSIVE JudgeFrom(_, _, _, _)
+JudgeFrom(r, SS, k, acc) ==
+  IF k > Len(r.steps) THEN (IF acc = <<>> THEN V("ok", <<>>, <<>>) ELSE V("reject", [i \in 1..Len(acc) |-> acc[i][1]], [i \in 1..Len(acc) |-> acc[i][2]]))
   ELSE LET o == r.steps[k] IN
-    IF ~GoodCmd(o.c) THEN V("bad-input", k, "")
+    IF ~GoodCmd(o.c) THEN V("bad-input", <<k>>, <<"">>)
     ELSE IF IsCall(o.c) THEN
       LET NS == UNION {AfterCall(P, T, o.c, o.out) : T \in SS} IN
-      IF o.st # 0 \/ o.err \/ NS = {} THEN V("reject", k, "call") ELSE JudgeFrom(r, NS, k + 1)
-    ELSE IF \E T \in SS : IsUnspec(P, T, o.c) THEN V("unspec", k, "")
+      IF o.st # 0 \/ o.err \/ NS = {} THEN
+        LET RS == Resync(SS, o.c, o.out)
+            acc2 == Append(acc, <<k, "call">>)
+        IN IF RS = {} THEN V("reject", [i \in 1..Len(acc2) |-> acc2[i][1]], [i \in 1..Len(acc2) |-> acc2[i][2]])
+           ELSE JudgeFrom(r, RS, k + 1, acc2)
+      ELSE JudgeFrom(r, NS, k + 1, acc)
+    ELSE IF \E T \in SS : IsUnspec(P, T, o.c) THEN
+      (IF acc = <<>> THEN V("unspec", <<k>>, <<"">>) ELSE V("reject", [i \in 1..Len(acc) |-> acc[i][1]], [i \in 1..Len(acc) |-> acc[i][2]]))
     ELSE LET NS == UNION {After(P, T, o.c, [st |-> o.st, out |-> o.out, err |-> o.err]) : T \in SS} IN
-         IF NS = {} THEN V("reject", k, Why(SS, o.c, o)) ELSE JudgeFrom(r, NS, k + 1)
+         IF NS = {} THEN LET acc2 == Append(acc, <<k, Why(SS, o.c, o)>>) IN
+                         V("reject", [i \in 1..Len(acc2) |-> acc2[i][1]], [i \in 1..Len(acc2) |-> acc2[i][2]])
+         ELSE JudgeFrom(r, NS, k + 1, acc)
 
-Judge(r) == IF r.miss THEN V("reject", 0, "no-observation") ELSE JudgeFrom(r, {InitState}, 1)
+Judge(r) == IF r.miss THEN V("reject", <<0>>, <<"no-observation">>) ELSE JudgeFrom(r, {InitState}, 1, <<>>)
 
 TraceInit == lo = 1 /\ hi = Len(Rec)
 
